@@ -330,7 +330,8 @@ func (cache *dirCache) markDir(path string, size uint64) {
 	cache.mutex.Lock()
 	defer cache.mutex.Unlock()
 	cache.added[path] = size
-	cache.added[path+"="] = size
+	// Also the temporary name it is written under; for compressed entries the = goes before the extension.
+	cache.added[strings.TrimSuffix(path, cache.Suffix)+"="+cache.Suffix] = size
 }
 
 // isMarked returns true if a directory has previously been passed to markDir.
